@@ -9272,7 +9272,7 @@ check_node_bin_map(
             max_index = index;
         }
     }
-    if (num_bins < 1 || (tsk_id_t) num_bins < max_index + 1) {
+    if (num_bins < 1 || (tsk_id_t) num_bins <= max_index) {
         ret = tsk_trace_error(TSK_ERR_BAD_NODE_BIN_MAP_DIM);
         goto out;
     }
